@@ -42,6 +42,7 @@ func init() {
 			{Name: "regex-bodies", Stream: c01StreamRegex, Eval: c01Eval},
 			{Name: "schema-bodies", Stream: c01StreamSchemaBodies, Eval: c01Eval},
 			{Name: "references", N: constN(6000, 150000), Gen: c09GenReferences, Eval: c01Eval},
+			{Name: "recursive-types", Stream: c01StreamRecursive, Eval: c01Eval},
 			{Name: "paths", Stream: c01StreamPaths, Eval: c01Eval},
 			{Name: "long-error-lines", Stream: c01StreamLongLines, Eval: c01Eval},
 		},
@@ -566,13 +567,18 @@ func c01StreamRegex(t *fw.T, shard, nshards int, emit func(*fw.Case)) {
 			return
 		}
 		var doc string
-		switch n % 3 {
+		switch n % 5 {
 		case 0:
 			doc = "JSIGHT 0.3\nTYPE @r regex\n/" + s + "/\n"
 		case 1:
 			doc = "JSIGHT 0.3\nGET /a\n  200 regex\n  /" + s + "/\n"
-		default:
+		case 2:
 			doc = "JSIGHT 0.3\nTYPE @r regex\n/" + s + "/\nTYPE @u\n{\"k\": @r, \"l\": [@r]}\nGET /a\n  200 @u\n"
+		case 3:
+			// the name is declared a second time, as something harmless: whatever is reported, the first body is still read
+			doc = "JSIGHT 0.3\nTYPE @r regex\n/" + s + "/\nTYPE @r\n{}\nGET /a\n  200 @r\n"
+		default:
+			doc = "JSIGHT 0.3\nTYPE @r regex\n/" + s + "/\nTYPE @r regex\n/[a-z]/\nPOST /a/{id}\n  Path\n  {\"id\": @r}\n  Request regex\n  /" + s + "/\n  200 any\n"
 		}
 		emit(oneDocCase([]byte(doc), "", "regex body"))
 	})
@@ -590,11 +596,14 @@ func c01StreamSchemaBodies(t *fw.T, shard, nshards int, emit func(*fw.Case)) {
 			return
 		}
 		var doc string
-		switch n % 3 {
+		switch n % 4 {
 		case 0:
 			doc = "JSIGHT 0.3\nTYPE @t\n{\"a\": 1}\nTYPE @x\n" + s + "\n"
 		case 1:
 			doc = "JSIGHT 0.3\nTYPE @t\n\"str\"\nGET /a\n  200\n  " + s + "\n"
+		case 2:
+			// the name is declared a second time
+			doc = "JSIGHT 0.3\nTYPE @t\n{\"a\": 1}\nTYPE @x\n" + s + "\nTYPE @x\n{}\nGET /a\n  200 @x\n"
 		default:
 			doc = "JSIGHT 0.3\nTYPE @t\n[1]\nPOST /a/{id}\n  Path\n  {\"id\": " + s + "}\n  Request\n    Headers\n    {\"h\": " + s + "}\n    Body any\n  200 any\n"
 		}
@@ -602,6 +611,66 @@ func c01StreamSchemaBodies(t *fw.T, shard, nshards int, emit func(*fw.Case)) {
 	})
 }
 
+
+// c01StreamRecursive: every way a user type can lead back to itself (alone, through an alias, through a list of
+// alternatives, an array, a property, allOf, an or-rule) used from every place that follows references.
+func c01StreamRecursive(t *fw.T, shard, nshards int, emit func(*fw.Case)) {
+	shapes := []string{
+		"TYPE @n\n@n | @leaf\n",
+		"TYPE @n\n@leaf | @n\n",
+		"TYPE @n\n@n\n",
+		"TYPE @n\n@m\nTYPE @m\n@n\n",
+		"TYPE @n\n@m | @leaf\nTYPE @m\n@n | @leaf\n",
+		"TYPE @n\n[@n]\n",
+		"TYPE @n\n{\"next\": @n}\n",
+		"TYPE @n\n{\n  \"next\": @n // {optional: true}\n}\n",
+		"TYPE @n\n{ // {allOf: \"@n\"}\n}\n",
+		"TYPE @n\n{ // {allOf: \"@m\"}\n  \"a\": 1\n}\nTYPE @m\n{ // {allOf: \"@n\"}\n  \"b\": 1\n}\n",
+		"TYPE @n\n1 // {or: [\"@n\", \"integer\"]}\n",
+		"TYPE @n\n@n | @n\n",
+		"TYPE @n\n{\n  @n : 1\n}\n",
+		"TYPE @n\n{} // {additionalProperties: \"@n\"}\n",
+		"TYPE @n\n@m\nTYPE @m\n@leaf | @n\n",
+		"TYPE @n\n[@m]\nTYPE @m\n@n | @leaf\n",
+	}
+	hosts := []string{
+		"POST /h\n  Request\n    Headers\n    @n\n    Body any\n  200 any\n",
+		"GET /h\n  200\n    Headers\n    @n\n    Body any\n",
+		"GET /p/{id}\n  Path\n  @n\n  200 any\n",
+		"GET /p/{id}\n  Path\n  {\"id\": @n}\n  200 any\n",
+		"GET /q\n  Query\n  @n\n  200 any\n",
+		"GET /q\n  Query\n  {\"q\": @n}\n  200 any\n",
+		"POST /b\n  Request @n\n  200 @n\n",
+		"GET /b\n  200 [@n]\n",
+		"GET /b\n  200\n    Body\n    @n | @leaf\n",
+		"URL /rpc\n  Protocol json-rpc-2.0\n  Method m\n    Params\n    @n\n    Result\n    [@n]\n",
+		"GET /b\n  200\n  { // {allOf: \"@n\"}\n    \"own\": 1\n  }\n",
+		"GET /b\n  200\n  {\n    @n : 1\n  }\n",
+		"GET /b\n  200\n  1 // {or: [\"@n\", \"string\"]}\n",
+		"GET /b\n  200\n  {} // {additionalProperties: \"@n\"}\n",
+		"SERVER @s\n  BaseUrl \"https://{env}.example/\"\n  {\"env\": @n}\n",
+		"TYPE @user\n{\"a\": @n, \"b\": [@n], \"c\": @n | @leaf}\nGET /b\n  200 @user\n",
+		"",
+	}
+	n := 0
+	for _, sh := range shapes {
+		for _, h := range hosts {
+			for order := 0; order < 2; order++ {
+				n++
+				if n%nshards != shard {
+					emit(nil)
+					continue
+				}
+				leaf := "TYPE @leaf\n{\"v\": 1}\n"
+				doc := "JSIGHT 0.3\n" + leaf + sh + h
+				if order == 1 {
+					doc = "JSIGHT 0.3\n" + h + sh + leaf
+				}
+				emit(oneDocCase([]byte(doc), "", "recursive type"))
+			}
+		}
+	}
+}
 
 var c01PathAtoms = []string{"a", ".", "/", "{x}", "{}", "%", " ", "..", "{x", "é"}
 
